@@ -31,7 +31,7 @@ FLAGS = ['priority', 'delete', 'allow_new', 'safe']
 ABCS = None
 
 
-def dump_case(repo, cls, flags, parent_md=None, data=None, user_md=None, tag=None, default_safe=None):
+def dump_case(repo, cls, flags, parent_md=None, data=None, user_md=None, tag=None, default_safe=None, out=None):
     """_node_representer evaluated (finite-domain evaluator) for one node: the node's own representation triple and the dumper
     are stand-ins; returns (raised, log) with log entries ('encode', metadata), ('represent_*', args, kwargs, open with-contexts, pushed)"""
     import collections.abc as cabc
@@ -40,7 +40,10 @@ def dump_case(repo, cls, flags, parent_md=None, data=None, user_md=None, tag=Non
     if default_safe is not None:
         kw['_default_safe'] = default_safe
     node = node_obj('n', cls, **kw)
-    dumper = Obj('dumper', 'AwesomeyamlDumper', metadata=([dict(parent_md)] if parent_md is not None else []), exclude_metadata=set())
+    pframe = dict(parent_md) if parent_md is not None else None
+    dumper = Obj('dumper', 'AwesomeyamlDumper', metadata=([pframe] if parent_md is not None else []), exclude_metadata=set())
+    if out is not None:
+        out.update(dumper=dumper, pframe=pframe)
     log = []
     md = dict(user_md or {})
     md.update(flags)
@@ -60,7 +63,7 @@ def dump_case(repo, cls, flags, parent_md=None, data=None, user_md=None, tag=Non
                     opened.append(e[1])
                 elif e[0] == 'with_exit' and opened:
                     opened.pop()
-            log.append((name, tuple(args), dict(kwargs), tuple(opened), [dict(x) for x in dumper.f['metadata']]))
+            log.append((name, tuple(args), dict(kwargs), tuple(opened), [dict(x) for x in dumper.f['metadata']], [x is pframe for x in dumper.f['metadata']]))
             return Opaque('yaml node')
         if name == 'force_unquoted':
             return Opaque('cm')
@@ -435,6 +438,62 @@ def r7(repo, run):
         run.ok('C18.R7', rep, 'no write to module / class level state in the representer (%d functions)' % len(fam), 'the dump of a node depends on the node and its ancestors only')
 
 
+def r12(repo, run):
+    """the stack of 'what the children inherit' frames on the dumper: while the children of a container are written the stack is the
+    ancestors' frames, untouched, plus one new frame holding nothing but inherited values and what was written for this node; when
+    the node is done the stack is what it was before - a frame shared with (or folded into) the parent's makes flags of one subtree
+    look inherited in its later siblings, whose equal flags are then elided although nothing implies them on re-parse"""
+    rep = repo.func('yaml._node_representer')
+    bad = []
+    rows = 0
+    for cls, data in (('ConfigDict', {'k': 1}), ('ConfigList', [1])):
+        if cls not in repo.classes:
+            continue
+        for pmd in (None, {}, {'allow_new': False}, {'delete': True, 'note': 'p'}):
+            for fl, umd in (({}, None), ({'delete': cls == 'ConfigDict'}, None), ({'priority': 1, 'delete': cls == 'ConfigDict'}, None), ({'delete': cls == 'ConfigDict'}, {'note': 'x'}), ({'safe': False, 'priority': -1}, {'u': 1})):
+                flags = dict(NOFLAGS)
+                flags.update(fl)
+                out = {}
+                raised, log = dump_case(repo, cls, flags, pmd, data, user_md=umd, default_safe=True, out=out)
+                rows += 1
+                e = _emit(log)
+                if raised or e is None:
+                    raise AnalysisError('_node_representer: frame case %s %s not evaluable (%s)' % (cls, fl, raised))
+                what = '%s with %s%s below ancestor frame %s' % (cls, fl or 'no flags', ' + user metadata' if umd else '', pmd)
+                before = [dict(pmd)] if pmd is not None else []
+                stack, same = e[4], e[5]
+                enc = [x[1] for x in log if x[0] == 'encode']
+                written = dict(enc[-1]) if enc else {}
+                tag = e[1][0] if e[1] and isinstance(e[1][0], str) else ''
+                for f_, v_ in flags.items():
+                    if v_ is not None and v_ in FLAG_TAGS[f_] and tag.split(':')[0] == FLAG_TAGS[f_][v_]:
+                        written[f_] = v_
+                if len(stack) != len(before) + 1:
+                    bad.append('%s: %d frames while its children are written (expected the %d of the ancestors and one for the node)' % (what, len(stack), len(before)))
+                    continue
+                if stack[:-1] != before or (before and not same[0]):
+                    bad.append('%s: the ancestors\' frame is %s while the children are written (was %s): it is updated in place, so the flags of this subtree stay "inherited" for every node dumped later' % (what, stack[:-1], before))
+                    continue
+                if same[-1]:
+                    bad.append('%s: the frame pushed for the children is the ancestors\' frame itself' % what)
+                    continue
+                frame = stack[-1]
+                allowed = dict(pmd or {})
+                allowed.update(written)
+                extra = {k: v for k, v in frame.items() if k not in allowed or allowed[k] != v}
+                if extra:
+                    bad.append('%s: the children\'s frame claims %s as inherited, which is neither inherited from the ancestors nor written for this node (written: %s)' % (what, extra, written))
+                    continue
+                after = out['dumper'].f['metadata']
+                if [dict(x) for x in after] != before or (before and after[0] is not out['pframe']):
+                    bad.append('%s: the frame stack after the node is %s, before it was %s' % (what, after, before))
+    run.table('C18.R12', rows, 'frame stack of the dumper over container kinds x ancestor frames x node flag sets')
+    if bad:
+        run.violation('C18.R12', rep, 'inherited-flags frames', bad[0] + (' [%d cases]' % len(bad) if len(bad) > 1 else ''), witness=bad[:4])
+    else:
+        run.ok('C18.R12', rep, 'frame stack (%d rows)' % rows, 'ancestors\' frames untouched, one fresh frame per container (inherited + written values only), popped afterwards')
+
+
 def r11(repo, run):
     """a node written without a tag of its own is handed to PyYAML as the plain Python value of its kind: a mapping node as a dict, a
     list node as a list, a tuple node as a tuple, a scalar node as its built-in base value; a plain (non-node) payload as it is"""
@@ -473,6 +532,7 @@ def check(repo, run, tier):
     g(r6, repo, run)
     g(r7, repo, run)
     g(r11, repo, run)
+    g(r12, repo, run)
     g(unitrules.function_tags, repo, run, 'C18.R8')
     g(unitrules.overrides_delegate, repo, run, 'C18.R9', 'AwesomeyamlDumper')
     g(unitrules.wrapped_node_origin, repo, run, 'C18.R10')
@@ -499,5 +559,8 @@ def mutants(repo):
         Mutant('elide-safe-against-parent-only', lambda r: in_func(r, 'yaml._node_representer', "            if current == parent or current == default:", "            if current == parent or current == default or (f == 'safe' and current is True):"), ['C18.R3']),
         Mutant('call-args-dumped-as-list', lambda r: in_func(r, 'FunctionNode.ayns.represent', "super()._get_value()", "[v for _, v in sorted(self.items())]"), ['C18.R4']),
         Mutant('tagged-scalar-verbatim', lambda r: in_func(r, 'yaml._node_representer', "return dumper.represent_scalar(tag, repr(data._dyn_base(data)))", "return dumper.represent_scalar(tag, str(data._dyn_base(data)))"), ['C18.R5']),
+        Mutant('children-frame-folded-into-parent', lambda r: in_func(r, 'yaml._node_representer', "dumper.metadata.append(children_metadata)", "parent_metadata.update(children_metadata); dumper.metadata.append(parent_metadata)"), ['C18.R12']),
+        Mutant('F21-reverted-frame-without-short-tag-flag', lambda r: in_func(r, 'yaml._node_representer', "dumper.metadata.append(children_metadata)", "dumper.metadata.append({ **parent_metadata, **metadata })"), ['C18.R12']),
+        Mutant('children-frame-never-popped', lambda r: in_func(r, 'yaml._node_representer', "            dumper.metadata.pop()", "            pass"), ['C18.R12']),
         Mutant('neutral-comment', lambda r: in_func(r, 'yaml._node_representer', "    to_infer = list(tags_to_infer.keys())\n", "    to_infer = list(tags_to_infer.keys())  # flags only\n"), neutral=True),
     ]
